@@ -75,7 +75,7 @@ type Val struct {
 	Tuple []Val
 	Re    *string // *regexp.Regexp with a known constant pattern
 	Range *RangeState
-	Sort  string // spec-level values whose sort is not a Go type (T == nil)
+	Sort  string   // spec-level values whose sort is not a Go type (T == nil)
 	Runes *RuneSrc // []rune values that are a window of []rune(s): which string, starting at which rune index
 }
 
